@@ -100,7 +100,7 @@ theorem enc4_dec4 (p : Pkt4) (h : Encodable p) :
   rw [optsFromBytes_eq]
   have hne : ¬ (marshalOpts p.opts ++ optEnd :: zeros pad).length = 0 := by simp
   rw [if_neg hne]
-  obtain ⟨o', ho', hf⟩ := optsLoop'_marshal p.opts (zeros pad) false
+  obtain ⟨o', ho', hf⟩ := optsLoop'_marshal p.opts (zeros pad)
   simp only [Lexer.new, optEnd] at ho' ⊢
   rw [ho']
   have hopts : o' = p.opts := by
